@@ -61,7 +61,9 @@ def mkCfgs (env : Env) (ti : Terminfo) (tc : Bool) (fit fit0 : List (Nat × Nat)
 
 def parseOp (op : String) : Option ScrOp :=
   match words op with
-  | ["S", x, y, m, c, st] => some (.setContent (toInt! x) (toInt! y) (toInt! m) (intList c) (Cb.parseStyle st))
+  | ["S", x, y, m, c, st] => some (.setContent (toInt! x) (toInt! y) (toInt! m) (Cb.combList c) (Cb.parseStyle st))
+  -- `SC x y style r [r…]` = Screen.SetCell (screen.go:385): SetContent of the first rune with the others as combining list
+  | "SC" :: x :: y :: st :: m :: comb => some (.setContent (toInt! x) (toInt! y) (toInt! m) (comb.map toInt!) (Cb.parseStyle st))
   | ["F", r, st] => some (.fill (toInt! r) (Cb.parseStyle st))
   | ["Y", st] => some (.setStyle (Cb.parseStyle st))
   | ["C", x, y] => some (.showCursor (toInt! x) (toInt! y))
